@@ -36,8 +36,8 @@ var c05Types = []c05Type{
 	{decl.TUpper, [8]string{"c1", "c2", "i1", "i2", "e1", "e2", "d1", "d2"}, decl.Upper{S: "N0"}},
 	{decl.TMapSS, [8]string{"k:c1", "k:c2", "k:i1", "k:i2", "k:e1", "k:e2", "k:d1", "k:d2"}, map[string]string{"k": "n0", "z": "n1"}},
 	{decl.TCSV, [8]string{"c1,cc", "c2", "i1,ii", "i2", "e1,ee", "e2", "d1,dd", "d2"}, decl.CSV{"n0", "n1"}},
-	{decl.TString, [8]string{"c1", "c2", "i1", "i2", "-e1", "--e2=x", "-d1", "d2"}, "n0"}, // values from the environment and from tags may look like options
-	{decl.TString, [8]string{"c1", "c2", "i1", "i2", "e1", "e2", "", ""}, "n0"},               // the default tag is the empty string: still a default
+	{decl.TString, [8]string{"c1", "c2", "i1", "i2", "-e1", "--e2=x", "-d1", "d2"}, "n0"},          // values from the environment and from tags may look like options
+	{decl.TString, [8]string{"c1", "c2", "i1", "i2", "e1", "e2", "", ""}, "n0"},                    // the default tag is the empty string: still a default
 	{decl.TStrings, [8]string{"c1", "c2", "i1", "i2", "e1", "e2", "", "d2"}, []string{"n0", "n1"}}, // first of two default tags empty
 }
 
